@@ -119,6 +119,8 @@ inductive RStep (cfg : Config) : RState → RState → Prop
   | readSubmit (r : RState) (l : Nat) : (r.s.nodes l).role = .leader →
       RStep cfg r { r with now := r.now + 1,
                            reads := ⟨l, (r.s.nodes l).term, readIndexOf (r.s.nodes l), r.now⟩ :: r.reads }
+  /-- time passes: any amount, with nothing happening -/
+  | tick (r : RState) (d : Nat) : RStep cfg r { r with now := r.now + 1 + d }
 
 def rinit : RState := { s := init }
 
